@@ -47,6 +47,31 @@ def cache_flow(ctx: Ctx) -> RuleResult:
                     M, how = dotted(b.targets[0].value), "item assignment"
         if isinstance(n, ast.Call) and isinstance(n.func, ast.Attribute) and n.func.attr == "update" and n.args and dotted(n.args[0]) == var:
             M, how = dotted(n.func.value), "update"
+    # every entry of the file is merged: the loop does not filter them by the executor's own selection
+    from .ref import _if_chains as _chains_of
+
+    ch_ = _chains_of(f.node)
+    for n in iter_own_nodes(f.node):
+        if isinstance(n, ast.For) and isinstance(n.iter, ast.Call) and isinstance(n.iter.func, ast.Attribute) \
+                and n.iter.func.attr == "items" and dotted(n.iter.func.value) == var:
+            loop_tests = ch_.get(id(n), ())
+            for b in own_walk(n):
+                st_ = None
+                if isinstance(b, ast.Expr) and isinstance(b.value, ast.Call) and isinstance(b.value.func, ast.Attribute) \
+                        and b.value.func.attr in ("force_set", "__setitem__", "setdefault"):
+                    st_ = b
+                elif isinstance(b, ast.Assign) and isinstance(b.targets[0], ast.Subscript):
+                    st_ = b
+                if st_ is None:
+                    continue
+                extra = [t for t, v_ in ch_.get(id(st_), ()) if all(t is not t0 for t0, _ in loop_tests)]
+                sel = [t for t in extra if any(isinstance(x, ast.Attribute) and x.attr in ("graph", "target_nodes", "exclude_nodes", "root_nodes", "xn_dict")
+                                                  for x in ast.walk(t))]
+                r.ob(not sel, {"merge of the cached entries filtered by": [norm_src(t) for t in extra] or None})
+                if sel:
+                    r.violate(f"{f.short}: cached entries are merged only for nodes of this executor's selection", f.loc(st_),
+                              "a result that is in the file but outside the restart's selection is dropped: the value comes back as None, "
+                              "and a cache file re-written by this run loses it (the next restart recomputes it)", norm_src(sel[0]))
     merge = _display_merge(f, var)
     if M is None and merge is not None:
         M, how = merge["target"], "dict display merge"
@@ -259,6 +284,24 @@ def cache_shape(ctx: Ctx) -> RuleResult:
         if not ok:
             r.violate(f"{f.short}: the cache file does not hold the id -> value mapping of the run", f.loc(s),
                       "the reader merges an id -> value mapping", norm_src(v))
+    # the file is REPLACED by each caching run: opened for (binary) writing, not for appending / updating
+    fh = dump.args[1] if len(dump.args) > 1 else None
+    opens = [n for n in iter_own_nodes(f.node) if isinstance(n, (ast.With, ast.AsyncWith))
+             for it in n.items if isinstance(it.context_expr, ast.Call) and dotted(it.context_expr.func) in ("open", "io.open")
+             and fh is not None and dotted(it.optional_vars) == dotted(fh)]
+    opens_calls = [it.context_expr for n in opens for it in n.items if isinstance(it.context_expr, ast.Call)]
+    if opens_calls:
+        oc = opens_calls[0]
+        mode = oc.args[1] if len(oc.args) > 1 else next((k.value for k in oc.keywords if k.arg == "mode"), None)
+        mv = mode.value if isinstance(mode, ast.Constant) else None
+        okm = mv in ("wb", "bw", "w+b", "wb+")
+        r.ob(okm, {"cache file opened with mode": mv})
+        if mv is not None and not okm:
+            r.violate(f"{f.short}: the cache file is opened with mode '{mv}'", f.loc(oc),
+                      "a second caching run into the same path does not replace the file: pickle.load reads the FIRST object of the "
+                      "file, so a restart returns the results of an earlier run (and executes nothing of what it should)", norm_src(oc))
+        elif mv is None:
+            raise Undecided(f"{f.short}: mode of the cache file is not a constant")
     # the caller passes the results of the run
     post = [g for g, c in ctx.callers_of(f.qualname)]
     r.ob(len(post) >= 1, {"written from": [g.short for g in post]})
